@@ -1064,11 +1064,17 @@ func isOrderingSort(call *ssa.Call, key string) bool {
 	if !(strings.HasPrefix(key, "slices.Sort") || strings.HasPrefix(key, "sort.")) {
 		return false
 	}
-	idx, ok := hofSlice[key]
-	if !ok || idx[1] >= len(call.Call.Args) {
-		return true // slices.Sort, sort.Strings ...: the natural order
+	// the comparator, if any: a function-typed argument
+	var cmpArgs []ssa.Value
+	for _, a := range call.Call.Args {
+		if _, isFunc := a.Type().Underlying().(*types.Signature); isFunc {
+			cmpArgs = append(cmpArgs, a)
+		}
 	}
-	for _, src := range traceSources(call.Call.Args[idx[1]]) {
+	if len(cmpArgs) == 0 {
+		return true // slices.Sort, sort.Strings, slices.Sorted ...: the natural order
+	}
+	for _, src := range traceSourcesAll(cmpArgs) {
 		var fn *ssa.Function
 		switch x := src.(type) {
 		case *ssa.MakeClosure:
@@ -1104,8 +1110,80 @@ func lossyComparator(fn *ssa.Function) bool {
 				if call, ok := v.(*ssa.Call); ok && lossyImage[core.CalleeKey(&call.Call)] {
 					lossy = true
 				}
+				// a part of a string (s[:n]) stands for many strings
+				if sl, ok := v.(*ssa.Slice); ok && (sl.Low != nil || sl.High != nil) {
+					if b, isBasic := sl.X.Type().Underlying().(*types.Basic); isBasic && b.Info()&types.IsString != 0 {
+						lossy = true
+					}
+				}
 			}
 		}
 	})
 	return lossy
+}
+
+func traceSourcesAll(vs []ssa.Value) []ssa.Value {
+	var out []ssa.Value
+	for _, v := range vs {
+		out = append(out, traceSources(v)...)
+		out = append(out, v)
+	}
+	return out
+}
+
+func init() {
+	for _, pid := range []string{"C14", "C19", "C12", "C03"} {
+		pid := pid
+		Properties[pid].Rules = append(Properties[pid].Rules, Rule{pid + "/sorts-are-total", func(c *Ctx) { ruleSortsAreTotal(c, pid+"/sorts-are-total") }})
+	}
+}
+
+// A sort that is there to make the order of a map's keys deterministic must not leave ties between different keys:
+// with a comparator that compares a lossy image of the keys (lower-cased, a prefix) tied keys keep the order the map
+// iteration gave them. Every sort in the package whose input comes from a map (maps.Keys/Values/All, MapKeys, or a
+// slice filled in a function that ranges over a map) is examined.
+func ruleSortsAreTotal(c *Ctx, rule string) {
+	n := 0
+	for _, fn := range c.P.Funcs {
+		if !c.P.InPkg(fn) || fn.Synthetic != "" {
+			continue
+		}
+		k := 0
+		core.EachInstr(fn, func(i ssa.Instruction) {
+			call, ok := i.(*ssa.Call)
+			if !ok || len(call.Call.Args) == 0 {
+				return
+			}
+			key := core.CalleeKey(&call.Call)
+			if !(strings.HasPrefix(key, "slices.Sort") || strings.HasPrefix(key, "sort.")) {
+				return
+			}
+			fromMap := false
+			for _, src := range append(traceSourcesDeep(call.Call.Args[0]), call.Call.Args[0]) {
+				if sc, ok := src.(*ssa.Call); ok {
+					switch core.CalleeKey(&sc.Call) {
+					case "maps.Keys", "maps.Values", "maps.All", "reflect.Value.MapKeys":
+						fromMap = true
+					}
+				}
+			}
+			top := fn
+			for top.Parent() != nil {
+				top = top.Parent()
+			}
+			for _, f := range core.WithAnon(top) {
+				if len(c.randomLoopsShallow(f)) > 0 {
+					fromMap = true
+				}
+			}
+			if !fromMap {
+				return
+			}
+			n++
+			k++
+			c.R.Check(isOrderingSort(call, key), rule, fmt.Sprintf("%s:sort#%d", core.FuncName(fn), k), c.pos(call), "the sort of what came out of a map orders different keys differently",
+				"the comparator of this sort compares a lossy image of the elements (lower-cased, trimmed, a prefix, a length): different keys can tie, tied keys keep the order the map iteration produced, and what is built from the sorted list (the order of resolution, the hash, the output) differs from call to call")
+		})
+	}
+	c.R.Floor(rule, "sorts of values taken from maps", n, 2)
 }
